@@ -105,6 +105,18 @@ pub fn fixed_programs() -> Vec<(String, Vec<Stmt>)> {
         ("literals", vec![decl(Ty::Int(None), "a", Some(Expr::Int("0xFF".into()))), decl(Ty::Float(None), "f", Some(Expr::Float("2.5e3".into()))), decl(Ty::Bool, "t", Some(Expr::Bool(false))), decl(Ty::Bit(Some(bx(int(4)))), "c", Some(Expr::BitStr("\"01_10\"".into()))), decl(Ty::Duration, "d", Some(Expr::Timing("2.5".into(), true, "us".into(), false))), decl(Ty::Complex(None), "z", Some(Expr::Imag("3".into(), false, false))), decl(Ty::Complex(None), "w", Some(Expr::Un(UnOp::Neg, bx(Expr::Imag("1.5".into(), true, false))))), decl(Ty::Float(None), "g", Some(Expr::Un(UnOp::Neg, bx(Expr::Float("0.5".into())))))]),
         ("io-declarations", vec![Stmt::IoDecl { input: true, ty: Ty::Angle(Some(bx(int(16)))), name: "theta".into() }, Stmt::IoDecl { input: false, ty: Ty::Bit(Some(bx(int(2)))), name: "res".into() }, Stmt::IoDecl { input: true, ty: Ty::Int(None), name: "theta".into() }]),
         ("aliases", vec![qr("q", 4), qd("r"), Stmt::Alias { name: "a1".into(), value: id("q") }, Stmt::Alias { name: "a2".into(), value: Expr::IndexedId("q".into(), vec![Index::List(vec![IndexItem::Range(int(0), None, int(1))])]) }, Stmt::Alias { name: "a3".into(), value: Expr::Bin(BinOp::Concat, bx(id("q")), bx(id("r"))) }, Stmt::Alias { name: "a1".into(), value: id("r") }]),
+        ("unicode-builtin-constants", vec![
+            decl(Ty::Float(None), "r", Some(id("π"))),
+            decl(Ty::Float(None), "s", Some(id("ℇ"))),
+            decl(Ty::Float(None), "t", Some(id("τ"))),
+            decl(Ty::Float(None), "u", Some(id("pi"))),
+            Stmt::If { cond: tru(), then: blk(vec![decl(Ty::Float(Some(bx(int(64)))), "τ", Some(Expr::Float("2.0".into()))), asg("r", id("τ")), asg("s", id("tau"))]), els: None },
+            Stmt::If { cond: tru(), then: blk(vec![decl(Ty::Float(Some(bx(int(64)))), "pi", Some(Expr::Float("3.0".into()))), asg("r", id("π")), asg("s", id("pi"))]), els: None },
+            Stmt::Gate { name: "gp".into(), params: Some(vec!["π".into()]), qubits: vec!["q".into()], body: vec![call("U", Some(vec![id("π"), int(0), int(0)]), vec![o("q")])] },
+            Stmt::Def { name: "fe".into(), params: vec![(ParamTy::Scalar(Ty::Float(None)), "ℇ".into())], ret: Some(Ty::Float(None)), body: vec![Stmt::Return(Some(id("ℇ")))] },
+            Stmt::For { ty: Ty::Float(None), var: "τ".into(), iter: ForIter::Set(vec![Expr::Float("1.0".into())]), body: blk(vec![asg("t", id("τ"))]) },
+            asg("t", id("τ")),
+        ]),
         ("gphase", vec![Stmt::GPhase { mods: vec![], arg: Expr::Float("0.5".into()), operands: vec![] }, Stmt::GPhase { mods: vec![Modifier::Inv], arg: id("pi"), operands: vec![] }, Stmt::Gate { name: "g".into(), params: Some(vec!["t".into()]), qubits: vec!["q".into()], body: vec![Stmt::GPhase { mods: vec![], arg: id("t"), operands: vec![] }] }]),
         ("nested-depth", vec![decl(Ty::Int(None), "a", Some(int(0))), Stmt::If { cond: tru(), then: blk(vec![Stmt::While { cond: tru(), body: blk(vec![Stmt::For { ty: Ty::Int(None), var: "i".into(), iter: ForIter::Set(vec![int(1)]), body: blk(vec![Stmt::Switch { control: id("i"), cases: vec![(vec![int(1)], vec![Stmt::If { cond: tru(), then: blk(vec![decl(Ty::Int(None), "a", Some(id("i"))), asg("a", id("i"))]), els: None }])], default: None }]) }]) }]), els: None }, asg("a", Expr::Cast(Ty::Int(None), bx(int(9))))]),
     ];
